@@ -175,3 +175,32 @@ Proof.
   - apply breaks_are_breaks.
   - apply pieces_rebuild. reflexivity.
 Qed.
+
+(* two break classes that agree on the characters of a text split it alike *)
+Lemma splitlines_ext brk1 brk2 : forall t, forallb (fun c => Bool.eqb (brk1 c) (brk2 c)) t = true ->
+  splitlines brk1 t = splitlines brk2 t.
+Proof.
+  intros t. pattern t. apply (split_ind brk1); clear t.
+  - reflexivity.
+  - intros c t B IH H. cbn [forallb] in H. apply andb_true_iff in H as [Hc Ht].
+    apply Bool.eqb_prop in Hc. rewrite !sl_nobrk by congruence. rewrite IH by exact Ht. reflexivity.
+  - intros c t B E IH H. cbn [forallb] in H. apply andb_true_iff in H as [Hc Ht].
+    apply Bool.eqb_prop in Hc. rewrite !sl_brk by congruence. rewrite IH by exact Ht. reflexivity.
+  - intros t B IH H. cbn [forallb] in H. apply andb_true_iff in H as [Hc H]. apply andb_true_iff in H as [_ Ht].
+    apply Bool.eqb_prop in Hc. rewrite !sl_crlf by congruence. rewrite IH by exact Ht. reflexivity.
+  - intros t B E IH H. cbn [forallb] in H. apply andb_true_iff in H as [Hc Ht].
+    apply Bool.eqb_prop in Hc. rewrite !sl_cr by congruence. rewrite IH by exact Ht. reflexivity.
+Qed.
+
+(* on the property's texts (no \x1c \x1d \x1e) the Spec's splitlines is CPython's str.splitlines *)
+Theorem spec_is_python_splitlines : forall t, forallb (fun c => negb (is_sep_ctl c)) t = true ->
+  splitlines is_break t = splitlines is_py_break t /\ ends_with is_break t = ends_with is_py_break t.
+Proof.
+  intros t H. split.
+  - apply splitlines_ext. rewrite forallb_forall in *. intros c I. specialize (H c I).
+    unfold is_py_break. apply negb_true_iff in H. rewrite H, orb_false_r. apply Bool.eqb_reflx.
+  - unfold ends_with. destruct (rev t) as [|c r] eqn:R; [reflexivity|].
+    assert (I : In c t) by (apply in_rev; rewrite R; left; reflexivity).
+    rewrite forallb_forall in H. specialize (H c I). apply negb_true_iff in H.
+    unfold is_py_break. rewrite H, orb_false_r. reflexivity.
+Qed.
